@@ -319,21 +319,43 @@ def structured_ops(rng, W, H, cfg):
     return ops
 
 
+WIDE = [(300, 2), (2, 300), (257, 3), (3, 258), (64, 9), (65, 5), (33, 17), (17, 31), (129, 4), (1030, 1), (1, 1030), (40, 40)]
+
+
+def wide_dims(rng, cfg, W, H):
+    """a few surfaces beyond the usual dozen pixels: past 16 / 32 / 64 / 128 / 256 / 1024 in one direction (chunked loops
+    and their tails, narrow integer types for coordinates and strides)"""
+    if rng.random() < cfg.get("p_wide", 0.03):
+        return rng.choice(WIDE)
+    return W, H
+
+
+def init_pixels(rng, cfg, W, H):
+    if cfg.get("init", "random") == "zero":
+        return [0] * (W * H)
+    if W * H > 600:
+        a, b = gen.premul_pixel(rng), gen.premul_pixel(rng)
+        return [a if rng.random() < 0.8 else b for _ in range(W * H)]
+    return [gen.premul_pixel(rng) for _ in range(W * H)]
+
+
 def rand_scene(rng, cid, cfg=None):
     """cfg keys: maxdim, nops, p_clip, p_layer, p_xf, draw_kinds, sources, modes, aa, curves, init ('zero'|'random')"""
     cfg = cfg or {}
     if rng.random() < cfg.get("p_structured", 0.45):
         maxdim = cfg.get("maxdim", 12)
         W, H = rng.randrange(2, maxdim + 1), rng.randrange(2, maxdim + 1)
-        px = [0] * (W * H) if cfg.get("init", "random") == "zero" else [gen.premul_pixel(rng) for _ in range(W * H)]
+        W, H = wide_dims(rng, cfg, W, H)
+        px = init_pixels(rng, cfg, W, H)
         return "scene %d %d %d I %s ; %s" % (cid, W, H, " ".join(map(gen.hexpx, px)), " ; ".join(structured_ops(rng, W, H, cfg)))
     maxdim = cfg.get("maxdim", 12)
     W, H = rng.randrange(1, maxdim + 1), rng.randrange(1, maxdim + 1)
     if rng.random() < cfg.get("p_zero_dim", 0.02):
         W = 0 if rng.random() < 0.5 else W
         H = 0 if W else 0
-    init = cfg.get("init", "random")
-    px = [0] * (W * H) if init == "zero" else [gen.premul_pixel(rng) for _ in range(W * H)]
+    if W and H:
+        W, H = wide_dims(rng, cfg, W, H)
+    px = init_pixels(rng, cfg, W, H)
     ops = []
     stack = []      # 'clip' / 'layer' entries, to keep pops matched
     n = rng.randrange(1, cfg.get("nops", 8) + 1)
